@@ -597,7 +597,7 @@ Lemma rel0_do_media sid h c x s to mk stream media :
 Proof.
   intros Hs. unfold do_media. destruct to as [i|u| |]; try apply rel0_refl.
   destruct (N.eqb mk 0).
-  - destruct (negb (offer_allowed (s_perms s) stream media)); [apply rel0_refl|].
+  - destruct (negb (offer_allowed (s_perms s) stream _)); [apply rel0_refl|].
     destruct (aget (s_pubs s) stream); [|apply rel0_start_create].
     eapply rel0_trans; [|apply rel0_send_session]. apply rel0_put with s; [exact Hs|now apply sessA_same].
   - destruct (N.eqb mk 1).
